@@ -329,6 +329,51 @@ async fn run_accept_case_async(case: &Val) -> Val {
                     }
                 }
             }
+            6 => {
+                // delete_peer immediately followed by a new connection from the same
+                // address, with the deleted neighbour's connection task still on its way
+                // out: the task is held at its first lock request in PeerSession::run
+                // until the new connection has been admitted (tokio's RwLock is FIFO).
+                use api::go_bgp_service_server::GoBgpService;
+                let role = if ol[2].int() == 0 { Role::Active } else { Role::Passive };
+                let sock = tokio::net::TcpSocket::new_v4().unwrap();
+                sock.bind(SocketAddr::new(addr, 0)).expect("bind 127.x.y.z");
+                let (c, sv) = tokio::join!(sock.connect(l4.local_addr().unwrap()), l4.accept());
+                let (client, server) = (c.unwrap(), sv.unwrap().0);
+                let _ = svc
+                    .delete_peer(tonic::Request::new(api::DeletePeerRequest {
+                        address: addr.to_string(),
+                        ..Default::default()
+                    }))
+                    .await;
+                let guard = global.write().await;
+                for _ in 0..20 {
+                    tokio::task::yield_now().await; // the old tasks run up to their lock request
+                }
+                let acc = accept_connection(&global, &tables, server, role);
+                tokio::pin!(acc);
+                let _ = futures::poll!(acc.as_mut()); // queue the admission behind them
+                drop(guard);
+                let admitted = acc.await;
+                let mut old: Vec<(TcpStream, tokio::task::JoinHandle<()>)> = Vec::new();
+                for active in [true, false] {
+                    if let Some(x) = conns.remove(&(addr, active)) {
+                        old.push(x);
+                    }
+                }
+                match admitted {
+                    Some(session) => {
+                        res = Val::L(vec![session_val(&session)]);
+                        let h = tokio::spawn(session.run(global.clone(), active_tx.clone()));
+                        conns.insert((addr, role == Role::Active), (client, h));
+                    }
+                    None => drop(client),
+                }
+                for (client, h) in old {
+                    let _ = tokio::time::timeout(Duration::from_secs(5), h).await;
+                    drop(client);
+                }
+            }
             t => panic!("verif: bad op tag {}", t),
         }
         let gr = global.read().await;
